@@ -305,6 +305,11 @@ func (cs *autoGrowingCallFrameStack) Sp() int {
 // SetSp can be used to rapidly unwind the stack, freeing all stack frames on the way. It should not be used to
 // allocate new stack space, use Push() for that.
 func (cs *autoGrowingCallFrameStack) SetSp(sp int) {
+	if sp >= cs.Sp() {
+		// nothing to unwind. In particular, when sp is the current depth and a multiple of FramesPerSegment the
+		// current segment may be full with the next one not allocated yet, which is not the form computed below.
+		return
+	}
 	desiredSegIdx := segIdx(sp / FramesPerSegment)
 	desiredFramesInLastSeg := uint8(sp % FramesPerSegment)
 	for {
